@@ -6,6 +6,7 @@ from harness import sim, tlc
 from harness.common import Check, main_wrapper
 from harness.drivers import serve_common as sc
 from harness.drivers.c13 import norm
+from harness.drivers import serve_nested as sn
 
 PID = "C14"
 
@@ -77,9 +78,15 @@ def main():
 
     if chk.replay:
         rep = json.load(open(chk.replay))["replay"]
-        cfg = sc.CONFIGS[rep["config"]]
-        res = sc.run_impl(cfg["reqs"], cfg["bg"], sc.index_chooser(rep["indices"]), lines=rep.get("lines", False))
-        _, c14 = sc.judge(res, cfg["reqs"])
+        if rep.get("mode") == "nested":
+            cfg = sn.NCONFIGS[rep["config"]]
+            res = sc.run_impl(cfg["reqs"], False, sc.index_chooser(rep["indices"]), lines=rep.get("lines", False),
+                              fixture=sn.fixture_for(cfg["nested"]))
+            _, c14 = sn.judge(res, cfg)
+        else:
+            cfg = sc.CONFIGS[rep["config"]]
+            res = sc.run_impl(cfg["reqs"], cfg["bg"], sc.index_chooser(rep["indices"]), lines=rep.get("lines", False))
+            _, c14 = sc.judge(res, cfg["reqs"])
         for key, msg in c14:
             print("VIOLATION property=%s replay=%s\n   [%s] %s" % (PID, chk.replay, key, msg))
         return 1 if c14 else 0
@@ -152,6 +159,11 @@ def main():
     if chk.thorough:
         for cfgname in ("1bg", "2"):
             sc.explore(chk, cfgname, 250, 0, 0, True, on_result)
+    # 4. replies that carry references (nested INSPECT round trips inside the dispatch, RpycServeNested): NoStall with nesting
+    if repaired:
+        sn.model_check(chk, chk.thorough)
+    sn.explore(chk, "c14", lambda k, m, r: None,
+               lambda k, m, r: chk.violation(k, "C14 " + m, r), chk.thorough)
     chk.assumptions += [
         "a stall = a client thread blocked (poll / condition wait) at a moment when every thread is blocked, nothing is in "
         "flight and its own result has been published; it then only returns by its 30 s timeout (virtual time)",
